@@ -8,6 +8,7 @@ import (
 	"errors"
 	"fmt"
 	"io"
+	"net"
 	"runtime"
 	"sync"
 	"sync/atomic"
@@ -103,6 +104,12 @@ type memConn struct {
 	// eofWithData: the Read that drains the buffer reports io.EOF together with the last bytes (io.Reader allows it; TLS does it)
 	peerEOF     bool
 	eofWithData bool
+	// flavour: how this transport reports its own closure, as real transports differ (0 = like net.Pipe):
+	//   bit 0: Read/Write after a local Close fail with an error wrapping net.ErrClosed ("use of closed network connection")
+	//   bit 1: a failing Write reports an error that wraps io.EOF
+	//   bit 2: the second and later Close calls return an error (net.Conn does)
+	flavour int
+	nClose  int32
 
 	wmu sync.Mutex
 
@@ -141,7 +148,7 @@ func (c *memConn) Read(p []byte) (int, error) {
 		c.cond.Wait()
 	}
 	if c.localClosed {
-		return 0, io.ErrClosedPipe
+		return 0, c.closedErr("read")
 	}
 	if len(c.rbuf) > 0 {
 		n := len(p)
@@ -203,20 +210,38 @@ func (c *memConn) Write(p []byte) (int, error) {
 			rec.clientWroteOnClosed(c, p)
 		}
 		if lc {
-			return 0, io.ErrClosedPipe
+			return 0, c.closedErr("write")
 		}
-		return 0, errMemBrokenPipe
+		return 0, c.writeErr(errMemBrokenPipe)
 	}
 	if err := c.peer.clientWrote(c, p); err != nil {
-		return 0, err
+		return 0, c.writeErr(err)
 	}
 	return len(p), nil
 }
 
+func (c *memConn) closedErr(op string) error {
+	if c.flavour&1 != 0 {
+		return fmt.Errorf("verif transport: %s: %w", op, net.ErrClosed)
+	}
+	return io.ErrClosedPipe
+}
+
+func (c *memConn) writeErr(err error) error {
+	if c.flavour&2 != 0 {
+		return fmt.Errorf("%v: %w", err, io.EOF)
+	}
+	return err
+}
+
 func (c *memConn) Close() error {
+	n := atomic.AddInt32(&c.nClose, 1)
 	c.mu.Lock()
 	if c.localClosed {
 		c.mu.Unlock()
+		if n > 1 && c.flavour&4 != 0 {
+			return fmt.Errorf("verif transport: close: %w", net.ErrClosed)
+		}
 		return nil
 	}
 	c.localClosed = true
